@@ -364,10 +364,10 @@ struct DomExec {
     bool r1 = (na == nb), r2 = (nb == na), r3 = (na != nb), r4 = (na == na), r5 = (nb == nb);
     ob = std::string("eq") + (r1 ? '1' : '0');
     if (!(chk & CHK_EQ)) return true;
+    if (a.m->has_dup_keys_deep() || b.m->has_dup_keys_deep()) return true;  // statement excludes duplicate keys
     if (!r4 || !r5) violate("model", site("reflexive"), "a node does not compare equal to itself");
     if (r1 != r2) violate("model", site("symmetric"), "A==B differs from B==A: A=" + model::printable(model::canon(*a.m), 200) + " B=" + model::printable(model::canon(*b.m), 200));
     if (r3 == r1) violate("model", site("negation"), "A!=B is not the negation of A==B");
-    if (a.m->has_dup_keys_deep() || b.m->has_dup_keys_deep()) return true;  // statement excludes duplicate keys
     bool want = model::equal_value(*a.m, *b.m);
     if (r1 != want)
       violate("model", site("value_equality"), std::string("operator== returned ") + (r1 ? "true" : "false") + " but JSON value equality is " + (want ? "true" : "false") + ": A=" + model::printable(model::canon(*a.m), 200) + " B=" + model::printable(model::canon(*b.m), 200));
